@@ -699,7 +699,7 @@ fn gen_value_taking(t: &mut Tape<'_>, opts: &GenOpts, a: &mut ArgSpec, _position
     }
     let (lo, hi) = a.value_range();
     if hi >= 1 && t.chance(1, 5) {
-        a.value_delimiter = Some(*t.pick(&[',', ';', ':']));
+        a.value_delimiter = Some(*t.pick(&[',', ';', ':', ',', '\u{b7}', '\u{3001}']));
     }
     if hi > 1 && t.chance(1, 5) {
         a.value_terminator = Some((*t.pick(&[";", "end", "--"])).to_owned());
